@@ -141,6 +141,14 @@ class Kernel(object):
             return
         self._switch(t)
 
+    def yield_to_others(self):
+        """like yield_point, but the caller is not a candidate for the next decision"""
+        t = self.cur()
+        if t is None:
+            return
+        self._exclude = t
+        self._switch(t)
+
     def preempt_point(self):
         """called by the shims at non-blocking synchronisation operations"""
         if self.preempt_p <= 0.0:
@@ -148,11 +156,20 @@ class Kernel(object):
         t = self.cur()
         if t is None or self.stopping:
             return
-        if sum(1 for x in self.tasks if x.state == RUNNABLE) < 2:
-            return
         if self.sim.chance("preempt", self.preempt_p):
             self.preemptions += 1
+            self._park(t)
+
+    STALLS = (0.0, 0.0, 0.0005, 0.004, 0.03, 0.2)
+
+    def _park(self, t):
+        """pre-emption: either a plain context switch or a stall of the thread for some virtual
+        time (a descheduled thread does not stop the clock for everybody else)"""
+        d = self.STALLS[self.sim.choose("preempt.stall", len(self.STALLS))]
+        if d == 0.0 or getattr(t, "no_stall", False):
             self._switch(t)
+        else:
+            self.block("preempted(%.4f)" % d, timeout=d)
 
     def block(self, what, timeout=None):
         """block the calling task; returns the wake reason ('timeout' when the timer fired)"""
@@ -165,7 +182,8 @@ class Kernel(object):
         if timeout is not None:
             t.timer_token += 1
             self._seq += 1
-            heapq.heappush(self.timers, (self.now_ns + max(0, int(timeout * 1e9)), self._seq, t.id, t.timer_token))
+            ns = int(timeout * 1e9) + 1 if timeout > 0 else 0     # never round a positive wait down to nothing
+            heapq.heappush(self.timers, (self.now_ns + ns, self._seq, t.id, t.timer_token))
         self._switch(t)
         return t.wake_reason
 
@@ -206,6 +224,10 @@ class Kernel(object):
                 blocked = ["%s blocked on %s at %s" % (t.name, t.wait_on, t.where())
                            for t in self.tasks if t.state == BLOCKED]
                 raise Deadlock(blocked)
+            ex = getattr(self, "_exclude", None)
+            self._exclude = None
+            if ex is not None and len(runnable) > 1 and ex in runnable:
+                runnable.remove(ex)
             if len(runnable) > 1:
                 if self.current in runnable:
                     runnable.remove(self.current)
@@ -287,12 +309,11 @@ class Kernel(object):
         if self.single_preempt_at is not None:
             if self.line_events == self.single_preempt_at:
                 self.preemptions += 1
-                self._switch(t)
+                self._park(t)
             return
         if self._line_p > 0 and self.sim.chance("preempt.line", self._line_p):
-            if sum(1 for x in self.tasks if x.state == RUNNABLE) >= 2:
-                self.preemptions += 1
-                self._switch(t)
+            self.preemptions += 1
+            self._park(t)
 
     def disable_line_preemption(self):
         if self._mon_tool is not None:
@@ -367,6 +388,9 @@ class SimLock(object):
 
     def release(self):
         if self.owner is None:
+            me = self.k.cur()
+            if me is not None and me.killed:
+                return
             raise RuntimeError("release unlocked lock")
         self.owner = None
         if self.waiters:
@@ -417,6 +441,8 @@ class SimRLock(object):
 
     def release(self):
         if self.owner is not self._me():
+            if getattr(self._me(), "killed", False):
+                return      # task is being torn down inside a wait(): nothing to release
             raise RuntimeError("cannot release un-acquired lock")
         self.count -= 1
         if self.count == 0:
